@@ -55,3 +55,51 @@ def reachable(F, roots):
         seen.add(i)
         stack.extend(callees(F.fns[i]))
     return seen
+
+
+def recursive_groups(F, is_library):
+    """Strongly connected components of the resolved call graph restricted to library functions with a body:
+    [sorted list of function ids] for every component that contains a cycle (several functions, or one that calls itself)."""
+    ids = [i for i, f in F.fns.items() if "body" in f and is_library(f)]
+    idset = set(ids)
+    succ = {i: sorted(c for c in callees(F.fns[i]) if c in idset) for i in ids}
+    index, low, on, st, out = {}, {}, set(), [], []
+    counter = [0]
+    for root in ids:
+        if root in index:
+            continue
+        work = [(root, 0)]
+        while work:
+            v, k = work.pop()
+            if k == 0:
+                index[v] = low[v] = counter[0]
+                counter[0] += 1
+                st.append(v)
+                on.add(v)
+            nxt = succ[v]
+            recursed = False
+            for j in range(k, len(nxt)):
+                w = nxt[j]
+                if w not in index:
+                    work.append((v, j + 1))
+                    work.append((w, 0))
+                    recursed = True
+                    break
+                if w in on:
+                    low[v] = min(low[v], index[w])
+            if recursed:
+                continue
+            if low[v] == index[v]:
+                comp = []
+                while True:
+                    w = st.pop()
+                    on.discard(w)
+                    comp.append(w)
+                    if w == v:
+                        break
+                if len(comp) > 1 or v in succ[v]:
+                    out.append(sorted(comp))
+            if work:
+                u = work[-1][0]
+                low[u] = min(low[u], low[v])
+    return out
